@@ -120,7 +120,10 @@ def run(ctx):
             else:
                 ctx.fail("next:unknown-decision", "next() branches on an unexpected condition: %s" % sym.show(e)[:160], where)
         if p.end == "diverge" or p.end == "panic":
-            ctx.check(isinstance(k, tuple) and set(k[1]) >= {0, 1, 2, 3}, "next:panic-only-outside-invariant",
+            from ..ranges import Ranger
+            bd_ = Ranger(f, {C: CNT_TY}).bounds(C, p.conds)
+            outside = (isinstance(k, tuple) and set(k[1]) >= {0, 1, 2, 3}) or (bd_ is not None and (bd_[0] >= 4 or bd_[0] > bd_[1]))
+            ctx.check(outside, "next:panic-only-outside-invariant",
                       "next() can panic with the promotion counter inside 0..=3", where)
             continue
         if p.end != "return":
